@@ -68,6 +68,12 @@ def build(rng):
         parts['footnotes.xml'] = ('footnotes', '<w:footnotes NS><w:footnote w:id="2">' + fn + '</w:footnote></w:footnotes>')
         if frels: extra['word/_rels/footnotes.xml.rels'] = rels_xml(frels)
     if rng.random() < 0.3: extra['word/media/unrelated.png'] = b'not related at all'
+    if rng.random() < 0.3:
+        # a part that uses no relationships and does not declare the r prefix, holding placeholder pictures without a relationship attribute
+        tok[0] += 1
+        parts['footer1.xml'] = ('footer', f'<w:ftr {ns_decl(omit=("r",))}>' + p(r(f'«{tok[0]}»logo '), '<w:r><w:drawing><wp:inline><wp:docPr id="1" name="n"/><a:graphic><a:graphicData uri="u"><a:blip/></a:graphicData></a:graphic></wp:inline></w:drawing></w:r>'
+                                '<w:r><w:pict><v:shape><v:imagedata croptop="1f"/></v:shape></w:pict></w:r>', r(' here')) + '</w:ftr>')
+        pics.append((tok[0], None, None)); pics.append((tok[0], None, None))
     data = docx(body, docrels=drels, parts=parts, extra=extra)
     related = {}
     for rels in (drels, hrels if hdr is not None else [], frels if fn is not None else []):
@@ -96,10 +102,14 @@ def one(ctx, data, related, pics, tmpdir, rng):
     ph = lambda o: [x for x in flat(o['ok'], 5) if x.startswith('----')] if 'ok' in o else o
     for v in ('body_runs', 'header_runs', 'footnotes_runs'):
         if ph(i[v]) != ph(m[v]): ctx.diff('placeholder runs of ' + v, case, ph(i[v]), ph(m[v])); good = False
-    for mode in ('none', 'existing', 'nested', 'save_images', 'images_then_save'):
+    for mode in ('none', 'existing', 'existing-stale', 'nested', 'save_images', 'images_then_save'):
         work = tempfile.mkdtemp(dir=tmpdir)
         folder = None if mode == 'none' else os.path.join(work, 'imgs') if mode in ('existing', 'save_images') else os.path.join(work, 'a', 'b', 'c')
         if mode == 'images_then_save': folder = os.path.join(work, 'late', 'x')
+        if mode == 'existing-stale':
+            # an existing folder that already holds files named like the images, of the same size but with other bytes (an earlier extraction)
+            folder = os.path.join(work, 'imgs'); os.mkdir(folder)
+            for n, b in related.items(): open(os.path.join(folder, n), 'wb').write(bytes((x ^ 0x55) for x in b[:4096]) + b[4096:])
         if mode == 'existing': os.mkdir(folder)
         before = listing(work)
         with warnings.catch_warnings():
@@ -115,7 +125,7 @@ def one(ctx, data, related, pics, tmpdir, rng):
                 else:
                     with docx2python(io.BytesIO(data), folder) as d:
                         got = d.images; got2 = got
-                        runs = {v: flat(getattr(d, v + '_runs'), 4) for v in ('body', 'header', 'footnotes')}
+                        runs = {v: flat(getattr(d, v + '_runs'), 4) for v in ('body', 'header', 'footnotes', 'footer')}
             except Exception as e:
                 ctx.fail('extracting / saving images raised', {**case, 'image_folder': mode}, type(e).__name__ + ': ' + str(e)[:80]); good = False; continue
         gh = {n: hashlib.sha256(b).hexdigest() for n, b in got.items()}
